@@ -5,6 +5,7 @@ CONSTANTS
   P = 11
   IdSeq <- IdsId
   Coefs = {1, 7}
+  FreshRedeal = FALSE
   HSet = {3}
   H = 3
   MaxSubsetCheck = 6
